@@ -113,6 +113,7 @@ type RawFrame struct {
 	Mtype byte
 	Seq   string
 	Size  int
+	Pipe  []byte
 }
 
 // ParseRawFrames parses back-to-back frames of the raw protocol (no transfer
@@ -129,13 +130,13 @@ func ParseRawFrames(b []byte) (frames []RawFrame, rest int) {
 		// f[4] transfer pipe length, then the pipe ids
 		pl := int(f[4])
 		p := 5 + pl
-		if p >= len(f) {
+		if p >= len(f) || 5+pl > len(f) {
 			frames = append(frames, RawFrame{Size: n})
 			continue
 		}
 		if pl > 0 {
 			// payload is transformed: header not readable
-			frames = append(frames, RawFrame{Size: n, Mtype: 255})
+			frames = append(frames, RawFrame{Size: n, Mtype: 255, Pipe: append([]byte(nil), f[5:5+pl]...)})
 			continue
 		}
 		sl := int(f[p])
